@@ -22,8 +22,9 @@ def short_hash(s):
 class K1Spec:
     """Properties decided on the unbuffered machine: Props/<id>.v + K1 sessions + oracles."""
 
-    def __init__(self, profile, tags, quick=(72, 25), thorough=(3000, 30), classes=None, extra=None, note=""):
+    def __init__(self, profile, tags, quick=(72, 25), thorough=(3000, 30), classes=None, extra=None, note="", more_profiles=()):
         self.profile, self.tags, self.quick, self.thorough = profile, tags, quick, thorough
+        self.more_profiles = list(more_profiles)
         self.classes = classes
         self.extra = extra or []
         self.note = note
@@ -33,17 +34,18 @@ class K1Spec:
             return ns.all_classes
         return [c for c in ns.all_classes if self.classes(c)]
 
-    def _k1(self, prop, seed, n, steps, name):
+    def _k1(self, prop, seed, n, steps, name, profile=None):
         import k1
         t = time.time()
         ns = import_library()
-        out = k1.run_sessions(self.profile, seed, n, steps, classes=self._classes(ns))
+        profile = profile or self.profile
+        out = k1.run_sessions(profile, seed, n, steps, classes=self._classes(ns))
         bad, diags = k1.check_against_model(out)
         mism = []
         for b, txt in diags:
             m = re.search(r"Some \((\d+), (\d+)\)", txt)
             st = int(m.group(1)) if m else None
-            mism.append({"correspondence": "K1 (Corr/K1.v check_case)", "profile": self.profile, "base_seed": seed,
+            mism.append({"correspondence": "K1 (Corr/K1.v check_case)", "profile": profile, "base_seed": seed,
                          "session": b, "nsessions": n, "nsteps": steps, "meta": out["meta"][b],
                          "first_differing_step": st, "reason_code": int(m.group(2)) if m else None,
                          "steps": out["logs"][b][: (st + 1) if st is not None else 5][-6:]})
@@ -53,7 +55,7 @@ class K1Spec:
         for f in out["oracle"]:
             if any(f["oracle"].startswith(t_) for t_ in self.tags) or f["oracle"] == "harness":
                 g = dict(f)
-                g.update(profile=self.profile, base_seed=seed, nsessions=n, nsteps=steps,
+                g.update(profile=profile, base_seed=seed, nsessions=n, nsteps=steps,
                          steps=out["logs"][f["session"]][: f["step"] + 1][-8:])
                 fails.append(g)
         nontrivial = len({short_hash(c) for c, l in zip(out["cases"], out["logs"]) if len(l) >= 4})
@@ -61,7 +63,7 @@ class K1Spec:
         if out["logs"]:
             samples.append({"class": out["meta"][0]["class"], "steps": out["logs"][0][:6]})
         return {"name": name, "evaluations": sum(len(l) for l in out["logs"]), "distinct_nontrivial": nontrivial,
-                "traces": len(out["cases"]), "rule": f"K1 profile {self.profile}: seeded sessions over all concrete classes; "
+                "traces": len(out["cases"]), "rule": f"K1 profile {profile}: seeded sessions over all concrete classes; "
                 "a session is non-trivial when it has >= 4 recorded steps; distinct by SHA-1 of the recorded trace",
                 "model_mismatches": mism, "oracle_failures": fails, "samples": samples, "stats": out["stats"],
                 "classes": out["classes"], "wall_s": round(time.time() - t, 1)}
@@ -69,6 +71,8 @@ class K1Spec:
     def run(self, prop, tier, seed):
         n, steps = self.quick if tier == "quick" else self.thorough
         runs = [self._k1(prop, seed, n, steps, f"K1/{self.profile}")]
+        for mp in self.more_profiles:
+            runs.append(self._k1(prop, seed + 101, max(24, (2 * n) // 3), steps, f"K1/{mp}", profile=mp))
         for fn in self.extra:
             runs.append(fn(prop, tier, seed))
         return runs
@@ -80,12 +84,13 @@ class K1Spec:
         fails = []
         ev = 0
         for k in range(4):
-            out = k1.run_sessions(self.profile, seed + 7919 * (k + 1), 150, 30, classes=self._classes(ns))
+            prof = ([self.profile] + self.more_profiles)[k % (1 + len(self.more_profiles))]
+            out = k1.run_sessions(prof, seed + 7919 * (k + 1), 150, 30, classes=self._classes(ns))
             ev += sum(len(l) for l in out["logs"])
             for f in out["oracle"]:
                 if any(f["oracle"].startswith(t_) for t_ in self.tags):
                     g = dict(f)
-                    g.update(profile=self.profile, base_seed=seed + 7919 * (k + 1), nsessions=150, nsteps=30,
+                    g.update(profile=prof, base_seed=seed + 7919 * (k + 1), nsessions=150, nsteps=30,
                              steps=out["logs"][f["session"]][: f["step"] + 1][-8:])
                     fails.append(g)
             if fails:
@@ -121,6 +126,11 @@ class K1Spec:
     def explanation(self, prop):
         return ("Theorems in coq/Props/%s.v over the model (all inputs / histories); model tied to /repo by the K1 "
                 "step-by-step differential evaluated inside Coq (vm_compute), property oracle evaluated on the implementation in the same runs." % prop)
+
+
+def c03_order(prop, tier, seed):
+    import k_extra
+    return k_extra.run_c03_order(prop, tier, seed)
 
 
 def plain_run(prop, tier, seed):
@@ -171,9 +181,10 @@ class FnSpec:
 class KBufSpec:
     """Properties decided on the buffer machine: Props/<id>.v + K-buf sessions + oracles."""
 
-    def __init__(self, profiles, tags, quick=(64, 40), thorough=(2500, 50), findings=(), note="", grid=False):
+    def __init__(self, profiles, tags, quick=(64, 40), thorough=(2500, 50), findings=(), note="", grid=False, extra=()):
         self.profiles, self.tags, self.quick, self.thorough, self.findings, self.note = profiles, tags, quick, thorough, findings, note
         self.grid = grid
+        self.extra = list(extra)
 
     def _run(self, profile, seed, n, budget):
         import kbuf
@@ -231,9 +242,12 @@ class KBufSpec:
         runs = [self._run(pf, seed + i, max(8, n // len(self.profiles)), budget) for i, pf in enumerate(self.profiles)]
         if self.grid:
             runs.append(self._grid(seed, tier))
+        for fn in self.extra:
+            runs.append(fn(prop, tier, seed))
         return runs
 
     grid = False
+    extra = ()
 
     def search(self, prop, tier, seed):
         fails, ev = [], 0
@@ -305,7 +319,7 @@ def k3_runner(which):
     def run(prop, tier, seed):
         import k3
         t = time.time()
-        specs = {"c09": k3.scenarios_c09, "c13": k3.scenarios_c13, "c14": k3.scenarios_c14}[which](tier)
+        specs = {"c09": k3.scenarios_c09, "c13": k3.scenarios_c13, "c14": k3.scenarios_c14, "c11": k3.scenarios_c11}[which](tier)
         rs = k3.run_scenarios(specs, tier, seed)
         out = k3.summarise("K3/" + which, rs, prop + "-schedule")
         if which == "c14":
@@ -360,14 +374,16 @@ def k4_run(prop, tier, seed):
 
 
 CANDIDATES = {
-    "C01": K1Spec("C01", ["C01"]),
+    "C01": K1Spec("C01", ["C01"], extra=[lambda prop, tier, seed: __import__("k_extra").run_c01_faults(prop, tier, seed)]),
     "C02": K1Spec("C02", ["C02"]),
-    "C03": K1Spec("C03", ["C03", "C02-read"], extra=[plain_run]),
+    "C03": K1Spec("C03", ["C03", "C02-read"], extra=[plain_run, c03_order], more_profiles=["C03b"]),
     "C04": K1Spec("C04", ["C01/C04"]),
-    "C11": K1Spec("C11", ["C11"]),
+    "C11": K1Spec("C11", ["C11"], extra=[lambda prop, tier, seed: k3_runner("c11")(prop, tier, seed)]),
     "C12": K1Spec("C12", ["C12", "C01", "C03-result"]),
-    "C17": K1Spec("C17", ["C17"], extra=[lambda prop, tier, seed: KBufSpec(["C17"], ["C17"])._run("C17", seed, 32 if tier == "quick" else 1500, 40)]),
-    "C05": KBufSpec(["C05", "C05cap"], ["C05", "C15-zero"], findings=("D19",)),
+    "C17": K1Spec("C17", ["C17"], extra=[lambda prop, tier, seed: KBufSpec(["C17"], ["C17"])._run("C17", seed, 32 if tier == "quick" else 1500, 40),
+                                           lambda prop, tier, seed: KBufSpec(["C17cap"], ["C17"])._run("C17cap", seed + 3, 32 if tier == "quick" else 1500, 40)]),
+    "C05": KBufSpec(["C05", "C05cap"], ["C05", "C15-zero", "C15-capacity"], findings=("D19",),
+                    extra=[lambda prop, tier, seed: __import__("kbuf").run_c05_diff(prop, tier, seed)]),
     "C06": KBufSpec(["C06", "C06b"], ["C05", "C06"], findings=("D19",)),
     "C07": KBufSpec(["C07", "C07cap"], ["C07", "C15-zero", "C15-capacity"], grid=True),
     "C15": KBufSpec(["C15", "C05cap"], ["C15"], grid=True),
